@@ -475,6 +475,39 @@ static std::string recAtomicOps()
 	REC("mul", v *= 3, 30)
 	REC("div", v /= 5, 6)
 #undef REC
+	// copy assignment and copy construction from another Atomic (two variables, two mutexes): the source is read under
+	// ITS mutex, the destination written under its own, never both held together; the copy has a fresh, unlocked mutex
+	{
+		Atomic<int> w(3);
+		const volatile void* mv = mtx;      // v's mutex, identified by the operators above
+		s.record_only = true; s.trace.clear();
+		v = w;
+		std::string e; const volatile void* mw = 0;
+		for (size_t i = 0; i < s.trace.size(); i++) {
+			int k = s.trace[i].kind;
+			if (k != vs::K_LOCK && k != vs::K_UNLOCK) { e += (e.empty() ? "" : ":") + std::string("other"); continue; }
+			if (s.trace[i].addr != mv && !mw) mw = s.trace[i].addr;
+			e += (e.empty() ? "" : ":");
+			e += s.trace[i].addr == mv ? (k == vs::K_LOCK ? "lock" : "unlock") : s.trace[i].addr == mw ? (k == vs::K_LOCK ? "lockSrc" : "unlockSrc") : "other";
+		}
+		s.trace.clear(); s.record_only = false;
+		out += " ; copyassign " + (e.empty() ? std::string("-") : e) + " " + str((int)(*v)) + "/0/3";
+		s.record_only = true; s.trace.clear();
+		Atomic<int> c(w);
+		e.clear();
+		for (size_t i = 0; i < s.trace.size(); i++) {
+			int k = s.trace[i].kind;
+			e += (e.empty() ? "" : ":");
+			e += (k == vs::K_LOCK && s.trace[i].addr == mw) ? "lockSrc" : (k == vs::K_UNLOCK && s.trace[i].addr == mw) ? "unlockSrc" : "other";
+		}
+		s.trace.clear();
+		// the copy's own mutex must be usable at once (735352c: it is not a byte copy of a possibly locked one)
+		++c;
+		bool own = false;
+		for (size_t i = 0; i < s.trace.size(); i++) if (s.trace[i].kind == vs::K_LOCK && s.trace[i].addr != mw && s.trace[i].addr != mv) own = true;
+		s.trace.clear(); s.record_only = false;
+		out += " ; copyctor " + (e.empty() ? std::string("-") : e) + (own ? ":ownMutex" : "") + " " + str((int)(*c)) + "/0/4";
+	}
 	return out;
 }
 
